@@ -339,6 +339,18 @@ impl Property for C19 {
                 if r.out.result.is_err() && full.result.is_ok() {
                     return Err(Failure::new(format!("{}: error-after-interrupt", kind), format!("{}: execute() reported {:?}\n  {}", where_, r.out.result, context)));
                 }
+                // interrupted while the last line of a file was being processed: the next file is not touched at all
+                let mut boundary = 0usize;
+                let at_file_end = file_lines.iter().take(file_lines.len().saturating_sub(1)).any(|f| {
+                    boundary += f.len();
+                    boundary == r.lines_taken_while_running && boundary > 0
+                });
+                if at_file_end && r.file_lines_after > 0 {
+                    return Err(Failure::new(
+                        format!("{}: a line fetched from the next file after the interrupt", kind),
+                        format!("{}: the interrupt came while the last line of a file was processed, yet {} line(s) were fetched from the following input\n  {}", where_, r.file_lines_after, context),
+                    ));
+                }
                 if r.file_lines_after > 1 {
                     // the line after the one that was being processed may already have been fetched; nothing beyond it
                     return Err(Failure::new(
